@@ -2,7 +2,8 @@
 //@ anchor: src/dap/yadap/session/data.rs :: fn value_write_meta
 //@ anchor: src/dap/yadap/session/data.rs :: fn parse_set_value
 //@ fragment: KINDS :: src/dap/yadap/session/data.rs :: fn value_write_meta :: `^BsValue::Scalar(s) =>` .. `^_ => v .type_id()`
-//@ harness: name=c15_scalar_width prop=C15 unit=C15.scalar_width mode=complete fn="value_write_meta (scalar arm), parse_set_value" timeout=1200
+//@ harness: name=c15_scalar_width prop=C15 unit=C15.scalar_width mode=complete fn="value_write_meta (scalar arm)" timeout=600
+//@ harness: name=c15_set_value_bytes prop=C15 unit=C15.set_value_bytes mode=bounded bound="the literal 7 for each of the 12 integer kinds" fn="parse_set_value" timeout=900 tier=thorough
 //@ assume: the width check uses the input text \"1\" (parse_set_value's width depends on the kind only); the value -> kind table is spliced verbatim from value_write_meta
 //@ notcovered: serialize_dap_value for composites (arrays: the element count is not checked against the array), truncation of out-of-range numbers by `as`, DAP variable lookup
 //
@@ -16,49 +17,70 @@ fn scalar_meta(s: &ScalarValue, addr: usize) -> Option<WriteMeta> {
     (/*@@FRAGMENT:KINDS*/).0
 }
 
-fn stub_format(_args: core::fmt::Arguments<'_>) -> String { String::new() }
-
-fn width_of(v: SupportedScalar) -> Option<(usize, usize)> {
-    let want = match &v {
-        SupportedScalar::I8(_) | SupportedScalar::U8(_) | SupportedScalar::Bool(_) => 1,
-        SupportedScalar::I16(_) | SupportedScalar::U16(_) => 2,
-        SupportedScalar::I32(_) | SupportedScalar::U32(_) | SupportedScalar::F32(_) | SupportedScalar::Char(_) => 4,
-        SupportedScalar::I64(_) | SupportedScalar::U64(_) | SupportedScalar::Isize(_) | SupportedScalar::Usize(_) | SupportedScalar::F64(_) => 8,
-        SupportedScalar::I128(_) | SupportedScalar::U128(_) => 16,
-        SupportedScalar::Empty() => 0,
-    };
+fn kind_of(v: SupportedScalar) -> Option<ScalarKind> {
     let s = ScalarValue { value: Some(v), type_ident: Default::default(), type_id: None, raw_address: Some(0x1000) };
     let meta = scalar_meta(&s, 0x1000);
     core::mem::forget(s);
     match meta {
         Some(WriteMeta::Scalar { addr, kind }) => {
             assert!(addr == 0x1000, "C15.scalar_width.E0 the write goes to the variable's own address");
-            match parse_set_value(kind, "1") {
-                Ok(bytes) => { let n = bytes.len(); core::mem::forget(bytes); Some((want, n)) }
-                Err(e) => { core::mem::forget(e); None }
-            }
+            Some(kind)
         }
         Some(other) => { core::mem::forget(other); None }
         None => None,
     }
 }
 
+/// bytes written for a kind = width of the Rust type of the same name (what parse_set_value produces: see its match arms)
+fn kind_width(k: ScalarKind) -> usize {
+    match k {
+        ScalarKind::I8 | ScalarKind::U8 | ScalarKind::Bool => 1,
+        ScalarKind::I16 | ScalarKind::U16 => 2,
+        ScalarKind::I32 | ScalarKind::U32 | ScalarKind::F32 | ScalarKind::Char => 4,
+        ScalarKind::I64 | ScalarKind::U64 | ScalarKind::Isize | ScalarKind::Usize | ScalarKind::F64 => 8,
+        ScalarKind::I128 | ScalarKind::U128 => 16,
+    }
+}
+
 #[kani::proof]
-#[kani::unwind(40)]
-#[kani::stub(alloc::fmt::format, stub_format)]
 fn c15_scalar_width() {
     let which: u8 = kani::any();
     kani::assume(which < 16);
-    let v = match which {
-        0 => SupportedScalar::I8(kani::any()), 1 => SupportedScalar::I16(kani::any()), 2 => SupportedScalar::I32(kani::any()),
-        3 => SupportedScalar::I64(kani::any()), 4 => SupportedScalar::I128(kani::any()), 5 => SupportedScalar::Isize(kani::any()),
-        6 => SupportedScalar::U8(kani::any()), 7 => SupportedScalar::U16(kani::any()), 8 => SupportedScalar::U32(kani::any()),
-        9 => SupportedScalar::U64(kani::any()), 10 => SupportedScalar::U128(kani::any()), 11 => SupportedScalar::Usize(kani::any()),
-        12 => SupportedScalar::F32(1.0), 13 => SupportedScalar::F64(1.0), 14 => SupportedScalar::Bool(kani::any()),
-        _ => SupportedScalar::Char('a'),
+    let (v, want) = match which {
+        0 => (SupportedScalar::I8(kani::any()), 1), 1 => (SupportedScalar::I16(kani::any()), 2), 2 => (SupportedScalar::I32(kani::any()), 4),
+        3 => (SupportedScalar::I64(kani::any()), 8), 4 => (SupportedScalar::I128(kani::any()), 16), 5 => (SupportedScalar::Isize(kani::any()), 8),
+        6 => (SupportedScalar::U8(kani::any()), 1), 7 => (SupportedScalar::U16(kani::any()), 2), 8 => (SupportedScalar::U32(kani::any()), 4),
+        9 => (SupportedScalar::U64(kani::any()), 8), 10 => (SupportedScalar::U128(kani::any()), 16), 11 => (SupportedScalar::Usize(kani::any()), 8),
+        12 => (SupportedScalar::F32(1.0), 4), 13 => (SupportedScalar::F64(1.0), 8), 14 => (SupportedScalar::Bool(kani::any()), 1),
+        _ => (SupportedScalar::Char('a'), 4),
     };
-    match width_of(v) {
-        Some((want, got)) => assert!(want == got, "C15.scalar_width.E1 a scalar of each type is written with exactly size_of that type bytes"),
-        None => panic!("C15.scalar_width.E2 every scalar type has a write kind and accepts the literal 1"),
+    match kind_of(v) {
+        Some(kind) => assert!(kind_width(kind) == want, "C15.scalar_width.E1 a scalar of each type is written with the kind of its own width (the whole value, no neighbouring byte)"),
+        None => panic!("C15.scalar_width.E2 every scalar type has a write kind"),
+    }
+}
+
+fn stub_format(_args: core::fmt::Arguments<'_>) -> String { String::new() }
+
+/// parse_set_value produces exactly kind_width(kind) bytes (integer kinds, concrete literal)
+#[kani::proof]
+#[kani::unwind(45)]
+#[kani::stub(alloc::fmt::format, stub_format)]
+fn c15_set_value_bytes() {
+    let kinds = [ScalarKind::I8, ScalarKind::U8, ScalarKind::I16, ScalarKind::U16, ScalarKind::I32, ScalarKind::U32,
+                 ScalarKind::I64, ScalarKind::U64, ScalarKind::I128, ScalarKind::U128, ScalarKind::Isize, ScalarKind::Usize];
+    let mut i = 0;
+    while i < 12 {
+        match parse_set_value(kinds[i], "7") {
+            Ok(bytes) => {
+                assert!(bytes.len() == kind_width(kinds[i]), "C15.set_value_bytes.E1 the literal is encoded with exactly the kind's width");
+                assert!(bytes[0] == 7, "C15.set_value_bytes.E2 little-endian: the low byte comes first");
+                let mut j = 1;
+                while j < bytes.len() { assert!(bytes[j] == 0, "C15.set_value_bytes.E3 the remaining bytes of a small value are zero"); j += 1; }
+                core::mem::forget(bytes);
+            }
+            Err(e) => { core::mem::forget(e); panic!("C15.set_value_bytes.E0 a small decimal literal is accepted for every integer kind"); }
+        }
+        i += 1;
     }
 }
